@@ -129,6 +129,10 @@ def generate(seed: int, tier: str) -> dict:
                 "formulas": {},
             }
         )
+        if chance(wr, 0.25):
+            # an end date concerns formulas: inputs given for later periods - or for a long
+            # period running past it - are inputs all the same
+            variables[-1]["end"] = pick(wr, ["2018-06-30", "2018-02-15", "2017-12-31", "2019-01-31"])
     world = {"entities": ents, "enums": [], "parameters": {}, "variables": variables, "discipline": "acyclic"}
     situation = gen_situation(st["inputs"], world, max_persons=4)
     kr = st["knobs"]
@@ -289,6 +293,21 @@ def run(scn) -> Result:
                     verdict, exp, known, unknown = m.set_input(period_text, array)
                     subs = sub_periods(period_text, spec["unit"])
                     before = _read(sim, env, var, subs)
+                    if spec.get("end") and parse_period(period_text)[1].isoformat() > spec["end"]:
+                        # an input for a period that starts after the variable's end date
+                        # is ignored (Simulation.set_input); one that starts on or before
+                        # it is an input like any other, however far it runs past it
+                        out = apply_op(sim, world, do)
+                        after = _read(sim, env, var, subs)
+                        H.add(op["actor"], kind, do[1:], canon_outcome(out), "ignored: starts after the end date")
+                        res.count("steps")
+                        res.count("probe:input_after_the_end_date_ignored")
+                        if out[0] == "exc" or any(canon(before.get(s_)) != canon(after.get(s_)) for s_ in subs):
+                            res.violate("C16.untouched", step, op=do[:3], what="an input starting after the end date was not simply ignored",
+                                        outcome=canon_outcome(out))
+                        continue
+                    if spec.get("end") and len(subs) > 1 and subs[-1] > spec["end"][: len(subs[-1])]:
+                        res.count("probe:long_input_runs_past_the_end_date")
                     # the model and the engine must agree on what is known (harness sanity)
                     fault = op.get("io_fault") if (env.fs is not None and len(subs) > 1) else None
                     if fault:
